@@ -215,8 +215,10 @@ variable [LT α] [LE α] [DecidableLT α] [DecidableLE α] [DecidableEq α] [Zer
 
 /-- `histogram.__init__(edges, bins=None, initial_value=init)` (histogram.py:117-164):
 check the edges, `n_out_of_range = 0`, `dim`, then either `init_bins` or the shape test of the
-given bins (`len(bins)` against `len(edges) - 1` when `dim == 1`, against `len(edges[0]) - 1`
-otherwise — transcribed literally, so edges `[[0,1,2]]` accept only `bins` of length 0). -/
+given bins: `len(bins)` against `len(edges[0]) - 1` when the edges of all axes are given (nested
+format, also for one dimension), against `len(edges) - 1` for flat edges (the code after the fix
+8d715e5; before it nested one-dimensional edges accepted only `bins` of length 0 —
+notes/C06_defect_1.md). -/
 def mkHist (edges : Edges α) (bins : Option (NArr β)) (init : β) : Except Err (Hist α β) := do
   checkEdgesIncreasing edges
   let dim := match edges with
@@ -228,18 +230,16 @@ def mkHist (edges : Edges α) (bins : Option (NArr β)) (init : β) : Except Err
     pure { edges := edges, bins := b, nOut := 0, dim := dim }
   | some b => do
     let n ← lenBins b
-    if dim = 1 then
-      if n ≠ edges.len - 1 then .error .lenaValueError
+    match edges with
+    | .nested axes =>                          -- `hasattr(edges[0], "__iter__")`: edges of all axes are given
+      match axes with
+      | [] => .error .indexError
+      | a0 :: _ =>
+        if n ≠ a0.length - 1 then .error .lenaValueError
+        else pure { edges := edges, bins := b, nOut := 0, dim := dim }
+    | .flat arr =>
+      if n ≠ arr.length - 1 then .error .lenaValueError
       else pure { edges := edges, bins := b, nOut := 0, dim := dim }
-    else
-      match edges with
-      | .flat _ => .error .unmodelled          -- not reachable: flat edges have dim = 1
-      | .nested axes =>
-        match axes with
-        | [] => .error .indexError
-        | a0 :: _ =>
-          if n ≠ a0.length - 1 then .error .lenaValueError
-          else pure { edges := edges, bins := b, nOut := 0, dim := dim }
 
 end Order
 
